@@ -48,6 +48,11 @@ def explore(ctx, tier, rng, search=False):
     for _ in range(6000 if big else 1200):
         mag = 10 ** rng.uniform(-4, 8.1)
         xs.append(mag if rng.random() < 0.55 else -mag / 8)
+    for k in range(3, 9):          # just below a power of ten: the rendering gains a digit when it rounds up
+        for j in range(0, 24):
+            for sgn in (1, -1):
+                for step in (1e-4, 1e-3, 1e-2, 1e-1):
+                    xs.append(sgn * (10.0 ** k - j * step))
     xs += [0.0, 0.0005, 0.0015, 0.0025, -0.0005, 1e8, -1e7, 1e8 - 0.5, -1e7 + 0.5, 99999999.49, -9999999.49, 123456789.0, -1e9]
     xs = [x for x in xs if x != 0 or math.copysign(1, x) > 0]
     reqs = []
@@ -66,6 +71,7 @@ def explore(ctx, tier, rng, search=False):
         case = {'kind': 'xyz', 'x': x, 'hex': float(x).hex()}
         feats = []
         if any(abs(x - t) <= 0.021 for t in THR): feats.append('near-threshold')
+        if any(0 <= 10.0 ** k - abs(x) <= 2.5 for k in range(3, 9)): feats.append('near-power-of-ten')
         if abs(x) >= 1000: feats.append('wide')
         if not inr: feats.append('out-of-range')
         rep.case(case, feats)
